@@ -34,20 +34,11 @@ HERE = os.path.abspath(__file__)
 # (`actual`, `fixed`) are for trying a patched checkout before the switch is flipped
 SEM = os.environ.get('VERIF_C17_SEM', 'current')
 
-# defects known on the unchanged tree (/verif/fixes/C17-*.md).  Until the coordinator has registered them in known_findings.json
-# (or applied the fixes) they are reported as KNOWN-FINDING from here; `report` is called with replay dicts carrying these keys.
+# the one defect that stays a known finding (/verif/fixes/C17-new-project-rerun.md; same signature as in known_findings.json).
+# The three generator defects (append mode a5da5b2, FIX generator state 6c43d46, FieldDef.Definitions 388f25f) are repaired:
+# their histories stay in corpus/C17 and in Witness/C17.lean as regressions that must pass; the oracle still *labels* such a
+# deviation with its old kind ('append-mode', 'fix-generator-state-leak', 'fielddef-leak') but nothing suppresses it.
 KNOWN_LOCAL = [
-    {'id': 'C17-append-mode', 'property': 'C17', 'status': 'known', 'signature': {'kind': 'append-mode'},
-     'what': "the generators open their output files with mode 'a': generating again into a directory that holds a previous "
-             "output appends — the module is doubled (ITCH/OUCH/SQF: import raises DuplicateMessageException), __init__.py "
-             "repeats its lines, an edited spec leaves the old classes in the file"},
-    {'id': 'C17-fix-generator-state-leak', 'property': 'C17', 'status': 'known', 'signature': {'kind': 'fix-generator-state-leak'},
-     'what': 'fix.parser.definitions.Group.Contexts / UniqueNameCounter are class-level and never reset: a dictionary generated '
-             "after another one in the same process gets the other's group classes (import fails: fields module has no such "
-             'field) and shifted unique names'},
-    {'id': 'C17-fielddef-leak', 'property': 'C17', 'status': 'known', 'signature': {'kind': 'fielddef-leak'},
-     'what': 'FieldDef.Definitions is class-level and replaced only when a spec has a fielddef-root: a spec without one is '
-             'generated from the field definitions of the spec parsed before it (alone it fails with KeyError)'},
     {'id': 'C17-new-project-rerun', 'property': 'C17', 'status': 'known', 'signature': {'kind': 'new-project-rerun'},
      'what': 'nasdaq-protocols-create-new-project appends to pyproject.toml and tox.ini: re-running it on an existing project '
              '(to add an application) leaves two [project] tables and a tox.ini that configparser rejects'},
@@ -55,11 +46,8 @@ KNOWN_LOCAL = [
 
 
 # a locally known finding is applied only while the MODEL still claims that defect for the library (flags of the semantics the
-# library is compared with, `gen.flags`): flipping `current := fixed` in Model/GenHistory.lean un-suppresses all of them at once
+# library is compared with, `gen.flags`): flipping `current := fixed` in Model/GenHistory.lean un-suppresses it
 STILL_CLAIMED = {
-    'C17-append-mode': lambda f: f.get('genMode') == 'append',
-    'C17-fix-generator-state-leak': lambda f: not (f.get('resetContexts') == 'true' and f.get('resetCounter') == 'true'),
-    'C17-fielddef-leak': lambda f: f.get('resetFieldDefs') != 'true',
     'C17-new-project-rerun': lambda f: f.get('pyprojMode') == 'append' or f.get('toxMode') == 'append',
 }
 MODEL_FLAGS = None          # None: model unavailable — every local finding stays applicable
